@@ -77,8 +77,33 @@ def parent(chk, F):
                "%s:%d" % (file, inner["line"]),
                "request loop is recv -> write request -> match reply -> send_response.send -> if break_out {kill; break}",
                "request loop statement order is %s, expected RECV, WRITE, MATCH, SEND, IFBREAK (a reply may be skipped or duplicated)" % order)
-    # RECV and SEND and WRITE results must be consumed by `?`
-    for tag in ("RECV", "WRITE", "SEND"):
+    # a request that cannot be written (the child died while idle) still gets a reply and a new child is started:
+    # the write's Result is not propagated with `?` (that would end the task and fail every later request); it is bound
+    # and its Err is turned into this request's reply on a path that sets break_out
+    ws = [s for s in seq if s[0] == "WRITE"]
+    if len(ws) == 1:
+        wnode = ws[0][2]
+        wtry = [n for n in hir_walk(wnode) if n.get("k") == "Try"]
+        wlet = next((st for k, st in H.stmts_of(inner["body"]) if k == "let" and st.get("init") is wnode), None)
+        wname = wlet["pat"].get("name") if wlet else None
+        wlid = wlet["pat"].get("lid") if wlet else None
+        handled = False
+        if wname and not wtry:
+            for mm in hir_walk(inner["body"]):
+                if mm.get("k") == "Match" and mm.get("src") == "Normal" and (H.local_name(mm["scrut"]) or (None, None))[1] == wlid:
+                    for a in mm["arms"]:
+                        if H.pat_str(a["pat"]).startswith("Result::Err("):
+                            b = a["body"]
+                            if b.get("k") == "Block":
+                                b = b.get("expr") or {}
+                            txt = H.expr_str(b, 80).replace(" ", "")
+                            handled = handled or txt.startswith("Result::Ok(Result::Err(") or txt.startswith("Ok(Err(")
+        chk.decide(handled, "request-loop", FK, "write-failure-is-answered", "%s:%d" % (file, ws[0][1]),
+                   "a failed write of the request becomes this request's error reply (Ok(Err(err)) -> the stream-error arm: kill and respawn)",
+                   "the result of writing the request is %s: when the child has died while idle the task ends, this request gets a closed-channel "
+                   "error and every later request fails (no respawn)" % ("propagated with `?`" if wtry else "not turned into a reply"))
+    # RECV and SEND results must be consumed by `?`
+    for tag in ("RECV", "SEND"):
         for s in seq:
             if s[0] == tag:
                 tries = [n for n in hir_walk(s[2]) if n.get("k") == "Try"]
